@@ -211,6 +211,15 @@ def gen_linear(quick: bool) -> List[Method]:
                     continue
                 for lname, lo, hi in lims:
                     out.append((it, pt, {"cat": "LINEAR", "i2p": [with_limits({"num": [o, f], "den": [d]}, lo, hi)]}))
+    # denominators / factors of large and tiny magnitude (slope 1e-12, 1e12, and 1 written as 1e12/1e12), real-valued physical
+    # type: the inverse law on the images of valid internal values decides
+    BIG = 10**12
+    for it in its:
+        for pt in ("A_FLOAT32", "A_FLOAT64"):
+            for num, den in (([0, 1], [BIG]), ([3, -1], [BIG]), ([0, 1], [1e-12]), ([0.5, -2], [1e-12]), ([0, BIG], [1]), ([1, -BIG], [4]),
+                             ([0, BIG], [BIG]), ([0, 3.0e12], [1.0e12]), ([0, 1], [-BIG])):
+                for lname, lo, hi in limit_menu(it)[:4] + zero_limit_menu(it)[1:2]:
+                    out.append((it, pt, {"cat": "LINEAR", "i2p": [with_limits({"num": num, "den": den}, lo, hi)]}))
     # 64-bit internal types: limits and values around 2^53, 2^63 and 2^64 (integer comparison must be exact)
     wide = {"u64": [(B53, B64 - 1), (10, B53), (B53 + 1, 2 * B53 + 1), (B63, B64 - 2)],
             "i64": [(-B53, B63 - 1), (-B63, B53), (-B53 - 1, B53 + 1), (-B63 + 1, -B53)]}
@@ -220,6 +229,11 @@ def gen_linear(quick: bool) -> List[Method]:
                 for lo, hi in ((L(a64, "CLOSED"), L(b64, "CLOSED")), (L(a64, "OPEN"), L(b64, "OPEN")), (L(a64, "OPEN"), b64), (a64, L(b64, "OPEN"))):
                     for num, den in (([0, 1], [1]), ([0, -1], [1]), ([3, 2], [2])):
                         out.append((it, pt, {"cat": "LINEAR", "i2p": [{"num": num, "den": den, "lo": lo, "hi": hi}]}))
+    # tiny but exact coefficients: 2^-40 x / 2^-40 is the identity whatever the magnitude of the factor
+    t40 = 2.0 ** -40
+    out.append(("u8", "A_FLOAT64", {"cat": "LINEAR", "i2p": [{"num": [0, t40], "den": [t40]}]}))
+    out.append(("i8", "A_FLOAT32", {"cat": "LINEAR", "i2p": [{"num": [0, t40], "den": [t40]}]}))
+    out.append(("u8", "A_FLOAT64", {"cat": "LINEAR", "i2p": [{"num": [t40, -3 * t40], "den": [t40 / 2]}]}))
     if not quick:
         out.append(("f64", "A_FLOAT64", {"cat": "LINEAR", "i2p": [{"num": [2.5, -0.5], "den": [4], "lo": L(-1.5, "OPEN"), "hi": L(99.75, "CLOSED")}]}))
         out.append(("u8", "A_FLOAT64", {"cat": "LINEAR", "i2p": [{"num": [2.5, -0.5], "den": [4], "lo": L(10, "OPEN"), "hi": L(200, "CLOSED")}]}))
@@ -321,7 +335,8 @@ def gen_scale_linear(quick: bool) -> List[Method]:
     # slopes whose denominators are inexact in binary (one denominator family per method), real-valued physical type
     T3, T7, T100 = F(1, 3), F(1, 7), F(1, 100)
     inexact = [(T3,), (T3, 2 * T3), (2 * T3, T3, T3), (-T3, -2 * T3), (T3, 4 * T3, 2 * T3, T3),
-               (T7,), (2 * T7, 3 * T7), (-T7, -3 * T7, -T7), (T100,), (3 * T100, 7 * T100), (-T100, -9 * T100, -3 * T100)]
+               (T7,), (2 * T7, 3 * T7), (-T7, -3 * T7, -T7), (T100,), (3 * T100, 7 * T100), (-T100, -9 * T100, -3 * T100),
+               (F(1, 10**12),), (F(1, 10**12), F(3, 10**12)), (-F(2, 10**12), -F(1, 10**12), -F(5, 10**12)), (F(10**12), F(2 * 10**12))]
     for it, pt in (("u8", "A_FLOAT32"), ("i8", "A_FLOAT64"), ("f32", "A_FLOAT32")):
         bk = BREAKS["f32i" if it == "f32" else it]
         for slopes in inexact:
@@ -780,7 +795,7 @@ class Evaluator:
             st, back = call(self.obj.convert_internal_to_physical, r)
             ok = st == "ok" and back == img
         elif R.is_num(x):
-            ok = R.is_num(r) and abs(F(r) - F(x)) <= R.REL_TOL * max(1, abs(F(x)))
+            ok = R.is_num(r) and abs(F(r) - F(x)) <= R.REL_TOL * max(1, abs(F(x))) + ref.p2i_tolerance(img)
         elif isinstance(x, (bytes, bytearray)):
             ok = isinstance(r, (bytes, bytearray)) and bytes(r) == bytes(x)
         else:
